@@ -65,6 +65,9 @@ def run(ctx, b, broken):
     # every printable ASCII character (and a few others) after a backslash, in every kind of character constant and string literal
     for ch in [chr(c) for c in range(32, 127)] + ["\t", "\u00e9", "\u0663"]:
         cases += ["'\\" + ch + "'", '"\\' + ch + '"', "L'\\" + ch + "'", 'u8"a\\' + ch + 'b"', "'a\\" + ch + "'"]
+    # integer constants of 20-26 characters in every base, with and without suffixes
+    for body in ["0" + "7" * 21, "01" + "7" * 22, "0" * 20 + "7", "1" + "8" * 20, "0x" + "f" * 20, "0X" + "0" * 19 + "1F", "0b" + "1" * 22, "9" * 24, "2147483648", "4294967296", "9223372036854775808"]:
+        cases += [body, body + "u", body + "ULL", body + "l"]
     for _ in range(5000 if ctx.tier == "quick" else 100000):
         s, _c = ctx.rng.choice([gen_int, gen_float, gen_charconst, gen_string])(ctx.rng)
         if ctx.rng.random() < 0.5 and s:
